@@ -431,32 +431,15 @@ def _poke(ctx):
 
 
 # ------------------------------------------------------------------ MemorySanitizer (thorough tier)
-MSAN_FLAGS = ('-Wno-error -D%s -fsanitize=memory -fsanitize-memory-track-origins -fno-omit-frame-pointer '
-              '-U_FORTIFY_SOURCE -D_FORTIFY_SOURCE=0' % common.GUARD)
-
-
 def _msan(ctx):
-    """clang MemorySanitizer build of the library and of the twin harness in the run's scratch directory (removed at exit).
-    _FORTIFY_SOURCE must be off: MSan does not intercept __memset_chk, so every OPUS_CLEAR would leave its target
-    'uninitialised' (false reports in ec_enc_done / silk_pitch_analysis_core_FLP).  The harness does not fill heap and
-    stack in this build and checks the shadow of every packet / PCM buffer it receives."""
+    """clang MemorySanitizer build of the library (`msan` variant of tools/common.py: _FORTIFY_SOURCE off, because MSan
+    does not intercept __memset_chk and every OPUS_CLEAR would otherwise leave its target 'uninitialised') and of the twin
+    harness.  The harness does not fill heap and stack in this build (__has_feature(memory_sanitizer)) and checks the
+    shadow of every packet / PCM buffer it receives."""
     import shutil
     if not shutil.which('clang'):
         return {'ran': False, 'why': 'clang not installed'}, []
-    d = os.path.join(common.scratch(), 'msan')
-    rc, out = common.sh(['cmake', '-G', 'Ninja', '-S', common.REPO, '-B', d, '-DCMAKE_BUILD_TYPE=RelWithDebInfo',
-                         '-DCMAKE_C_COMPILER=clang', '-DCMAKE_C_FLAGS=' + MSAN_FLAGS, '-DOPUS_BUILD_TESTING=OFF',
-                         '-DOPUS_BUILD_PROGRAMS=OFF', '-DOPUS_HARDENING=ON', '-DOPUS_FORTIFY_SOURCE=OFF'])
-    if rc == 0:
-        rc, out = common.sh(['cmake', '--build', d, '-j8', '--target', 'opus'])
-    if rc != 0:
-        raise RuntimeError('MSan library build failed: ' + out[-1500:])
-    exe = os.path.join(d, 'c12_twin_msan')
-    rc, out = common.sh(['clang', '-g', '-O1', '-fsanitize=memory', '-fsanitize-memory-track-origins', '-fno-omit-frame-pointer',
-                         '-I' + os.path.join(common.REPO, 'include'), '-I' + common.HARNESS, '-Wl,--wrap=malloc',
-                         os.path.join(common.HARNESS, 'c12_twin.c'), os.path.join(d, 'libopus.a'), '-lm', '-o', exe])
-    if rc != 0:
-        raise RuntimeError('MSan harness build failed: ' + out[-1500:])
+    exe = _harness(ctx, 'c12_twin', 'msan', '-O1')
     per = {'enc': 300, 'dec': 300, 'msenc': 80, 'msdec': 80, 'projenc': 50, 'projdec': 30, 'rp': 100}
     jobs = [(m, k, 5000000, per[k]) for k in KINDS for m in ('determ', 'clone', 'reset')]
 
